@@ -69,6 +69,53 @@ def _assert_repo():
 
 
 _CHECK = None
+_PRISTINE = None
+
+
+def _library_modules():
+    return [m for name, m in list(sys.modules.items()) if (name == 'csep' or name.startswith('csep.')) and m is not None]
+
+
+def _snapshot_library_state():
+    """Shallow copies of every module-level dict/list/set of the library, taken once per process before any case runs."""
+    global _PRISTINE
+    snap = {}
+    for m in _library_modules():
+        for attr, val in list(vars(m).items()):
+            if attr.startswith('__'):
+                continue
+            if type(val) in (dict, list, set):
+                snap[(m.__name__, attr)] = (val, val.copy())
+    _PRISTINE = snap
+
+
+def _reset_library_state():
+    """Own the library's module-level state: clear functools caches and restore module-level containers, so that a case
+    cannot see what an earlier case in the same worker left behind (each case is then reproducible in a fresh process)."""
+    if _PRISTINE is None:
+        _snapshot_library_state()
+        return
+    for m in _library_modules():
+        for attr, val in list(vars(m).items()):
+            cc = getattr(val, 'cache_clear', None)
+            if callable(cc):
+                try:
+                    cc()
+                except Exception:
+                    pass
+            elif type(val) in (dict, list, set) and not attr.startswith('__'):
+                key = (m.__name__, attr)
+                if key in _PRISTINE and _PRISTINE[key][0] is val:
+                    orig = _PRISTINE[key][1]
+                    if val != orig:
+                        val.clear()
+                        (val.update if isinstance(val, (dict, set)) else val.extend)(orig)
+                elif key not in _PRISTINE:
+                    # a container that did not exist (or was rebound) when the process started: empty it
+                    try:
+                        val.clear()
+                    except Exception:
+                        pass
 
 
 def _init_worker(pid):
@@ -76,6 +123,8 @@ def _init_worker(pid):
     import warnings
     warnings.filterwarnings('ignore')
     _CHECK = load_check(pid)
+    import csep  # noqa: F401
+    _snapshot_library_state()
     # numpy global RNG state unrelated to anything under test
     import numpy
     numpy.random.seed(987654321)
@@ -87,6 +136,7 @@ def _run_one(args):
     idx, case = args
     t0 = time.time()
     try:
+        _reset_library_state()
         r = _CHECK.run_case(case)
     except Exception as e:  # a crash of the harness itself is a harness error, not a violation
         r = result(failures=[], digest='EXC')
@@ -124,6 +174,8 @@ def replay(pid, path):
     check = load_check(pid)
     _assert_repo()
     rec = json.load(open(path))
+    import csep  # noqa: F401
+    _reset_library_state()
     r = check.run_case(rec['case'])
     sigs = [f['signature'] for f in r['failures']]
     if rec['signature'] in sigs:
